@@ -46,6 +46,8 @@ type c10Case struct {
 	Format string `json:"format,omitempty"`
 	Offset int64  `json:"offset_ms,omitempty"`
 	Years  int    `json:"offset_years,omitempty"` // far past / far future documents (beyond what a time.Duration holds)
+	// RFC validity probe: name of the invalid document shape
+	Invalid string `json:"invalid,omitempty"`
 	// time rule, sequences of documents with several time fields through one (pooled) processor
 	TSeq   []int `json:"tseq,omitempty"`
 	TSplit bool  `json:"tsplit,omitempty"` // one request per document instead of one request for all
@@ -370,6 +372,47 @@ func c10Time(r *vlib.Run, ing *bulk.Ingestor, cap *capture, drift, future time.D
 	r.Distinct("nontrivial", sig)
 }
 
+// ---- (D) documents that are not valid JSON reject the whole request ----
+// Shapes that are invalid both under RFC 8259 and in the dialect of the store's decoder. (The decoder is laxer
+// than the RFC for number notation — 01, 1e, -, .5, 1., +1 — and inside strings — unknown escapes, raw control
+// characters, broken \\u escapes; such documents are stored verbatim. Those shapes are not judged: see DESIGN §5.)
+
+var c10InvalidDocs = [][2]string{
+	{"num-hex", `{"a":0x10}`}, {"literal-nan", `{"a":NaN}`}, {"literal-truncated", `{"a":tru}`}, {"literal-case", `{"a":True}`},
+	{"string-single-quotes", `{"a":'x'}`}, {"string-unterminated", `{"a":"x}`}, {"trailing-comma", `{"a":1,}`},
+	{"missing-comma", `{"a":1 "b":2}`}, {"missing-colon", `{"a" 1}`}, {"missing-value", `{"a":}`}, {"double-comma", `{"a":1,,"b":2}`},
+	{"key-not-string", `{1:2}`}, {"trailing-garbage", `{"a":1}x`}, {"two-values", `{"a":1}{"b":2}`}, {"unclosed-array", `{"a":[1,2}`},
+	{"nested-unclosed", `{"a":{"b":1}`},
+}
+
+func c10Invalid(r *vlib.Run, h http.Handler, cap *capture, c c10Case) {
+	r.Add("evaluations", 1)
+	var doc string
+	for _, d := range c10InvalidDocs {
+		if d[0] == c.Invalid {
+			doc = d[1]
+		}
+	}
+	shapes := c10DocShapes()
+	body := actionLine("create") + "\n" + shapes["obj"][0] + "\n" + actionLine("index") + "\n" + doc + "\n" + actionLine("create") + "\n" + shapes["obj2"][0] + "\n"
+	cap.mu.Lock()
+	cap.docs, cap.metas, cap.calls = nil, nil, 0
+	cap.mu.Unlock()
+	req := httptest.NewRequest("POST", "/_bulk", strings.NewReader(body))
+	rec := httptest.NewRecorder()
+	if p := vlib.Catch(func() { h.ServeHTTP(rec, req) }); p != nil {
+		r.Violation(fmt.Sprintf("bulk handler panics on an invalid document shape=%s: %v", c.Invalid, p), c, fmt.Sprintf("body %q", body))
+		return
+	}
+	cap.mu.Lock()
+	calls, stored := cap.calls, cap.docs
+	cap.mu.Unlock()
+	if rec.Code >= 200 && rec.Code < 300 || calls != 0 {
+		r.Violation("a document that is not valid JSON is accepted shape="+c.Invalid, c, fmt.Sprintf("document %q\nstatus %d response %q\nstore calls %d stored %q", doc, rec.Code, rec.Body.String(), calls, stored))
+	}
+	r.Distinct("nontrivial", "invalid|"+c.Invalid)
+}
+
 // ---- (C) time rule over sequences: the ID time of a document depends on that document only ----
 
 // c10TSpecs: time fields of a document as (field, offset in ms; 1<<40 = unparsable value).
@@ -477,6 +520,8 @@ func TestVerifC10(t *testing.T) {
 	if r.LoadReplay(&rc) {
 		if rc.Field != "" {
 			c10Time(r, ing, cp, drift, future, rc)
+		} else if rc.Invalid != "" {
+			c10Invalid(r, h, cp, rc)
 		} else if len(rc.TSeq) > 0 {
 			c10TSeq(r, ing, cp, drift, future, rc)
 		} else {
@@ -556,6 +601,10 @@ func TestVerifC10(t *testing.T) {
 		}
 	}
 	r.Sample(c10Case{Field: "ts", Format: "es", Offset: -(d + 1)})
+	// ---- (D) RFC-invalid documents ----
+	for _, d := range c10InvalidDocs {
+		c10Invalid(r, h, cp, c10Case{Invalid: d[0]})
+	}
 	// ---- (C) sequences ----
 	seqLen := 2
 	if r.Thorough() {
